@@ -238,6 +238,19 @@ func runC09(r *fw.Runner) {
 			}
 		}
 	}
+	// deltas far beyond any duration type's range in nanoseconds (292 years are 9.2e9 s): the default end is from + D all the same
+	for _, d := range []uint64{1 << 34, 1 << 40, 10000000000, 1 << 50} { // (grid values stay below 2^53: exact in the serialized payload)
+		d := d
+		grid := c09Grid(int64(d))
+		for gi, g := range grid {
+			g := g
+			if !r.Thorough && gi%6 != int(d%6) {
+				continue
+			}
+			typ := "urd"[gi%3]
+			r.Case("grid-huge-delta-"+typeName(typ), func(c *fw.Case) { c09Run(c, typ, gen.Ed25519, c09Proto(d), g) })
+		}
+	}
 	// other parameters must not move the window
 	type variation struct {
 		name string
@@ -315,7 +328,7 @@ func runC09(r *fw.Runner) {
 
 func c09Validator(c *fw.Case) {
 	r := c.Rng
-	delta := fw.Pick(r, []uint64{0, 1, 600, 7200})
+	delta := fw.Pick(r, []uint64{0, 1, 600, 7200, 1 << 34, 1 << 40, 10000000000})
 	proto := c09Proto(delta)
 	if r.Bool() {
 		proto.MaxDeltaSize = uint(fw.Pick(r, []uint64{7000, 7200, 100000}))
